@@ -10,7 +10,7 @@ def c02admit : Drv where
   step := fun _ ws =>
     match ws with
     | ["admit", h, ia, ic, oa, oc, fb, fp, d] =>
-      match admit ⟨nat! fb, nat! fp, nat! d⟩ (nat! h) (nat! ia) (nat! ic) (nat! oa) (nat! oc) with
+      match admitFwd ⟨nat! fb, nat! fp, nat! d⟩ (nat! h) (nat! ia) (nat! ic) (nat! oa) (nat! oc) with
       | .ok _ => ((), "ok")
       | .error e => ((), if reasonClass e == "other" then "err other" else "err " ++ reasonClass e ++ " " ++ e.name)
     | _ => ((), "bad-op")
